@@ -46,7 +46,7 @@ func c13ExhaustiveCount(tier string) int {
 func init() {
 	register(&Prop{
 		ID: "C13", Level: "exploration",
-		Rule:        "concurrent-load cases: 3-4 readers (lookups, visits) load a flushed and re-opened tree at the same time, with or without a mutator, under the deterministic scheduler (switches before AND after every file call); at quiescence every cached node that has a file location must equal the 52-byte record stored there (item, child locations, both aggregates) and the concurrent-history checks must hold. merge-copy cases: CopyTo into a file that already holds a store with the same collection names and interleaving keys; the result must be a search tree and heap with exact aggregates (hook walk + shape check of the returned store). exhaustive part: for every key-set size n <= 5 (quick) / 6 (thorough), EVERY insertion order x EVERY priority ranking (n!*n! histories; distinct priorities) is built step by step; then every single key is deleted and re-inserted, then the store is flushed, evicted, re-opened and mutated once more. After every step the verif-hook walk (cached nodes) completed with the independent decoder (persisted subtrees) recomputes every node's numNodes/numBytes bottom-up, checks strict in-order key order against the model, heap order and the depth of every item against the unique treap (Cartesian tree) of the current keys and priorities; the same shape oracle is evaluated through the public API only ((key,priority,depth) sequence of VisitItemsAscendEx), and every flushed image is validated node by node by the decoder. Random part: collections up to 200 items with deletes, overwrites at higher/equal/lower priority (heap and shape clauses are switched off from the first lowering overwrite until the collection is empty, as the statement allows), tied priorities (shape clause off, heap clause on), custom comparators, value-length callbacks (neutral ones and a codec whose on-disk value length is twice len(Val), so that byte totals are defined by ItemValLength on every path), and flushes that fail on one write and are retried (the persisted tree must still be exact). Non-trivial = n >= 2 (exhaustive) or a history with overwrite and delete (random); distinct = distinct (n, order, ranking) or op-trace hash.",
+		Rule:        "concurrent-load cases: 3-4 readers (lookups, visits) load a flushed and re-opened tree at the same time, with or without a mutator, under the deterministic scheduler (switches before AND after every file call); at quiescence every cached node that has a file location must equal the 52-byte record stored there (item, child locations, both aggregates) and the concurrent-history checks must hold. merge-copy cases: CopyTo into a file that already holds a store with the same collection names and interleaving keys; the result must be a search tree and heap with exact aggregates (hook walk + shape check of the returned store). exhaustive part: for every key-set size n <= 5 (quick) / 6 (thorough), EVERY insertion order x EVERY priority ranking (n!*n! histories; distinct priorities) is built step by step; then every single key is deleted and re-inserted, then the store is flushed, evicted, re-opened and mutated once more. After every step the verif-hook walk (cached nodes) completed with the independent decoder (persisted subtrees) recomputes every node's numNodes/numBytes bottom-up, checks strict in-order key order against the model, heap order and the depth of every item against the unique treap (Cartesian tree) of the current keys and priorities; the same shape oracle is evaluated through the public API only ((key,priority,depth) sequence of VisitItemsAscendEx), and every flushed image is validated node by node by the decoder. cold-delete cases (a quarter of the random part): runs of deletes in a flushed tree whose items were evicted by visits / EvictSomeItems / Len while its nodes stay cached, after churn in another collection has filled the package-global free lists with nodes of unrelated priorities; shape, heap, aggregates after every delete and after flush + re-open. Random part: collections up to 200 items with deletes, overwrites at higher/equal/lower priority (heap and shape clauses are switched off from the first lowering overwrite until the collection is empty, as the statement allows), tied priorities (shape clause off, heap clause on), custom comparators, value-length callbacks (neutral ones and a codec whose on-disk value length is twice len(Val), so that byte totals are defined by ItemValLength on every path), and flushes that fail on one write and are retried (the persisted tree must still be exact). Non-trivial = n >= 2 (exhaustive) or a history with overwrite and delete (random); distinct = distinct (n, order, ranking) or op-trace hash.",
 		Assumptions: []string{"comparators are total orders", "walks run at quiescent points only (between API calls)"},
 		Exhaustive:  func(string) bool { return false },
 		NumCases: func(tier string) int {
@@ -54,7 +54,7 @@ func init() {
 		},
 		Run: runC13,
 		Floor: func(tier string, st map[string]int64) string {
-			for _, k := range []string{"c13.exhaustive-cases", "walks", "shape.checks", "shape.canonical-depths-checked", "decodes", "shape.heap-off-checks", "shape.tied-priority-checks", "op.Set.overwrite-lower", "c13.length-changing-codec-cases", "failed-flushes", "c13.concurrent-load-cases", "c13.concurrent-load-nodes-compared", "c13.merge-copy-cases", "op.CopyTo.into-existing-store"} {
+			for _, k := range []string{"c13.exhaustive-cases", "walks", "shape.checks", "shape.canonical-depths-checked", "decodes", "shape.heap-off-checks", "shape.tied-priority-checks", "op.Set.overwrite-lower", "c13.length-changing-codec-cases", "failed-flushes", "c13.concurrent-load-cases", "c13.concurrent-load-nodes-compared", "c13.merge-copy-cases", "op.CopyTo.into-existing-store", "c13.cold-deletes"} {
 				if st[k] == 0 {
 					return "no " + k + " observed"
 				}
@@ -76,6 +76,9 @@ func runC13(ctx *Ctx, idx int) Result {
 		return runC13Concurrent(ctx, idx, r)
 	}
 	if idx >= ex {
+		if (idx-ex)%4 == 3 {
+			return runC13ColdDeletes(ctx, idx)
+		}
 		return runC13Random(ctx, idx)
 	}
 	// decode idx -> (n, order, ranking)
@@ -183,4 +186,88 @@ func runC13Random(ctx *Ctx, idx int) Result {
 	ctx.Add(e)
 	return Result{Hash: histHash(e), NonTrivial: h.Feat["overwrite"] && h.Feat["delete"], Viol: violOf(e),
 		Sample: map[string]interface{}{"index": idx, "prio_regime": int(reg), "features": featList(h.Feat), "ops": tail(e.Trace, 30)}}
+}
+
+// runC13ColdDeletes: deletes (joins) in a tree whose items are persisted and evicted while its nodes stay
+// cached, with the package-global free lists full of nodes that held other items before: every join has to
+// rank subtree roots whose items are not in memory, and builds its new nodes out of recycled ones.
+func runC13ColdDeletes(ctx *Ctx, idx int) Result {
+	seed := CaseSeed(ctx.Seed, "C13", idx)
+	r := gen.New(seed)
+	SeedGlobalRand(seed)
+	cfg := driver.Config{Walk: true, Decode: true}
+	if r.P(25) {
+		cfg.CB = driver.CBVal
+	}
+	e := driver.NewEnv(fmt.Sprintf("c13c-%d", idx), cfg)
+	e.SetCollection("t", "")
+	e.SetCollection("u", "")
+	n := r.Range(5, 40)
+	prios := r.Perm(n)
+	keys := make([][]byte, n)
+	for i := range keys {
+		keys[i] = []byte(fmt.Sprintf("k%03d", i*3))
+	}
+	for _, i := range r.Perm(n) {
+		e.SetItem("t", keys[i], []byte(fmt.Sprintf("v%d", i)), int32(prios[i]*10+5), false)
+	}
+	e.Flush()
+	step := func() {
+		e.AfterStep()
+		e.ShapeCheck("t")
+	}
+	step()
+	alive := map[int]bool{}
+	for i := 0; i < n; i++ {
+		alive[i] = true
+	}
+	rounds := r.Range(2, 6)
+	for round := 0; round < rounds && !e.Failed(); round++ {
+		// make the items cold while the nodes stay cached
+		switch r.Intn(3) {
+		case 0:
+			e.Visit(-1, "t", driver.VisitKind(r.Intn(2)), nil, r.Bool(), -1)
+			e.Visit(-1, "t", driver.VAsc, []byte{}, false, -1)
+		case 1:
+			e.Evict("t", r.Range(5, 40))
+		case 2:
+			e.Len(-1, "t")
+		}
+		// churn: the free list gets nodes whose previous items had unrelated priorities
+		m := r.Range(3, 25)
+		for j := 0; j < m; j++ {
+			e.SetItem("u", []byte(fmt.Sprintf("churn%02d", j)), []byte("c"), int32(r.Intn(3)+1), false)
+		}
+		for j := 0; j < m; j++ {
+			e.Delete("u", []byte(fmt.Sprintf("churn%02d", j)))
+		}
+		// a run of deletes in the cold tree
+		for d := r.Range(1, 4); d > 0 && len(alive) > 1 && !e.Failed(); d-- {
+			var cand []int
+			for i := range keys {
+				if alive[i] {
+					cand = append(cand, i)
+				}
+			}
+			i := cand[r.Intn(len(cand))]
+			e.Delete("t", keys[i])
+			delete(alive, i)
+			ctx.Stats["c13.cold-deletes"]++
+			step()
+		}
+		if r.P(40) && !e.Failed() {
+			e.Flush()
+			step()
+		}
+	}
+	if !e.Failed() {
+		e.Flush()
+		step()
+		e.Reopen(r.Bool())
+		step()
+	}
+	ctx.Add(e)
+	ctx.Stats["c13.cold-delete-cases"]++
+	return Result{Hash: histHash(e), NonTrivial: n >= 5, Viol: violOf(e),
+		Sample: map[string]interface{}{"index": idx, "kind": "cold-deletes", "n": n, "ops": tail(e.Trace, 30)}}
 }
